@@ -46,7 +46,10 @@ type RunResult struct {
 	Summary  string
 	Sweep    int // for enumerating families: size of the sweep dimension discovered by this run
 	Touched  bool
-	Panicked string
+	// Faultless: the family has no fault dimension; a run is non-trivial
+	// when Touched alone
+	Faultless bool
+	Panicked  string
 }
 
 // Family is one workload family of a property.
@@ -199,7 +202,12 @@ func RunFlow(w *World, spec *RunSpec, tune func(f *Flow)) *Flow {
 			return p.Type == PUBACK || p.Type == PUBCOMP
 		}
 	}
-	for g := 1; g <= f.O.Generations; g++ {
+	first := 1
+	if f.O.Constructed {
+		f.constructImage()
+		first = 2
+	}
+	for g := first; g <= f.O.Generations; g++ {
 		if g > 1 {
 			if f.BetweenGens != nil {
 				f.BetweenGens(f, g)
@@ -756,6 +764,31 @@ func init() {
 		f.O.Requesters = f.W.Tape.Draw("nreq17", 2)
 		f.O.PerReq = 3
 	}, "errmax_returned")})
+	register("C17", Family{Name: "wrap", Weight: 1, Run: flowFamily(func(f *Flow) {
+		o := &f.O
+		o.Constructed = true
+		o.Generations = 2 + f.W.Tape.Draw("gens17", 2)
+		o.FaultFreeAfterStop = true
+		o.StopW = 1
+		o.Clean = false
+		o.ALOMax = []int{64, 8, -1, 20000}[f.W.Tape.Draw("alomax17w", 4)]
+		o.EOMax = []int{64, 8, -1, 20000}[f.W.Tape.Draw("eomax17w", 4)]
+		o.Publishers = 1 + f.W.Tape.Draw("npub17w", 2)
+		o.PerPub = 2 + f.W.Tape.Draw("perpub17w", 6)
+		o.Budget = 2
+	}, "pending_range_straddles_wrap")})
+	register("C02", Family{Name: "wrap", Weight: 1, Run: flowFamily(func(f *Flow) {
+		o := &f.O
+		o.Constructed = true
+		o.Generations = 2 + f.W.Tape.Draw("gens2w", 3)
+		o.FaultFreeAfterStop = true
+		o.StopW = 1
+		o.Clean = false
+		o.ALOMax, o.EOMax = 64, 64
+		o.Publishers = 1 + f.W.Tape.Draw("npub2w", 2)
+		o.PerPub = 1 + f.W.Tape.Draw("perpub2w", 5)
+		o.Budget = 2
+	}, "pending_range_straddles_wrap", "resumed_after_restart")})
 	register("C18", Family{Name: "connects", Weight: 1, Run: flowFamily(func(f *Flow) {
 		f.O.Net.DialFail = 300
 		f.O.Net.DialHang = 100
